@@ -223,7 +223,7 @@ def trace_events(seed, n):
 
 
 def run(ctx: Ctx):
-    consts = dict(TVals="{-1,0,2}", Frames='{"base_link","map"}', Sample="40" if ctx.quick else "150", MaxOps="4",
+    consts = dict(TVals="{-1,0,2}", Frames='{"base_link","map","lidar_top"}', Sample="40" if ctx.quick else "150", MaxOps="4",
                   RegFrames='{"base_link","map"}' if ctx.quick else '{"base_link","map","lidar_top"}')
     res = T.run_model("MC_Transforms", "MCT_" + ctx.pid, consts, invariants=INV, model_values=(), tlc_kwargs=dict(dump=True, allow_violation=False, seed=ctx.seed, timeout=3000))
     ctx.add_tlc(res, "MC_Transforms %s" % consts, must_take=["Eval", "RegisterOp", "QueryOp"])
